@@ -59,6 +59,7 @@ def run(ctx):
     downgrade_users(ctx, facts)
     C04.order_prf(ctx, facts)          # validate_record precedes the reveals of the PRF
     C04.fresh_key(ctx, facts)          # a fresh MAC key per validation batch
+    C04.linear_ops(ctx, facts)         # local operations keep rx = r*x
     from rules import shufalg, C05, C15
     shufalg.tags(ctx, facts, "TAG")    # what the shuffle verification hashes per row; keys ++ ONE
     C05.key_cover(ctx, facts)          # one MAC key per 32-bit word of the row
